@@ -23,6 +23,7 @@ import (
 	"encoding/json"
 	"fmt"
 	"math/big"
+	"math/rand"
 	"os"
 	"runtime/debug"
 	"sort"
@@ -102,6 +103,15 @@ type vgResult struct {
 	Total string      `json:"t"`
 }
 
+// one draw of the voting reward winner: seed, the random number the real function derives from it
+// (math/rand source seeded with it, as vprt.go does), and the winner address (hex) or the error
+type vgPick struct {
+	Seed   int64  `json:"seed"`
+	R      string `json:"r"`
+	Winner string `json:"w"`
+	Err    string `json:"err"`
+}
+
 type vgDump struct {
 	Err         string     `json:"err"`
 	Panic       string     `json:"panic,omitempty"`
@@ -114,6 +124,8 @@ type vgDump struct {
 	ParamDB     []string   `json:"pdb"`
 	Mem         *vgVpr     `json:"mem"`
 	Reload      *vgVpr     `json:"reload"`
+	Rankers     []string   `json:"rankers"` // GetRankers: hex candidates
+	Picks       []vgPick   `json:"picks"`   // PickVotingRewardWinner for fixed seeds
 	Equals      bool       `json:"equals"`
 	EqualsPanic string     `json:"equalspanic,omitempty"`
 	Event       string     `json:"ev"`
@@ -280,6 +292,25 @@ func (e *vgEnv) dump(errc string) *vgDump {
 		} else {
 			d.ParamDB = append(d.ParamDB, "")
 		}
+	}
+	if rk, err := GetRankers(scs); err == nil {
+		for _, b58 := range rk {
+			raw, _ := base58.Decode(b58)
+			d.Rankers = append(d.Rankers, hex.EncodeToString(raw))
+		}
+	}
+	for _, seed := range []int64{1, 7, 123456789, -5, 86400} {
+		p := vgPick{Seed: seed}
+		if votingPowerRank != nil && votingPowerRank.getTotalPower().Sign() > 0 {
+			p.R = new(big.Int).Rand(rand.New(rand.NewSource(seed)), votingPowerRank.getTotalPower()).String()
+		}
+		w, err := PickVotingRewardWinner(seed)
+		if err != nil {
+			p.Err = err.Error()
+		} else {
+			p.Winner = hex.EncodeToString(w)
+		}
+		d.Picks = append(d.Picks, p)
 	}
 	d.Mem = vgDumpVpr(votingPowerRank)
 	rl, err := loadVpr(scs)
